@@ -26,22 +26,22 @@ def gen(ctx):
         for r in modes(n):
             cs.add('req', w, r, 1024, '-')
     n_skel = len(cs)
-    # (ii) single-byte mutations of valid lines: all 256 values (replace) on some bases / all bases in the thorough tier,
-    #      class representatives (replace, insert, delete) on the others
+    # (ii) single-byte mutations of valid lines: all 256 values (replace; thorough: also insert) on 3 (thorough: 7) bases,
+    #      class representatives (replace, insert, delete) on all
     for bi, base in enumerate(BASES):
-        full = ctx.thorough or bi in (0, 2, 6)
+        full = (ctx.thorough and bi < 5) or bi in (0, 2, 6)
         muts = H.mutations(base, range(256), ('rep',) if not ctx.thorough else ('rep', 'ins')) if full else []
         muts += H.mutations(base, H.CLASS_BYTES, ('rep', 'ins', 'del'))
         for n, w in enumerate(muts):
             for r in modes(n):
                 cs.add('req', w, r, 1024, '-')
     n_mut = len(cs) - n_skel
-    # (iii) the stated limits: method 32/33 tchars, request-target 65535/65536 octets (needs a request_header_max_size beyond it)
+    # (iii) the stated limits: method 32/33 tchars, request-target 65536/65537 octets (needs a request_header_max_size beyond it)
     for m in (1, 31, 32, 33, 34, 64):
         for r in (0, 1):
             cs.add('req', b'X' * m + b' / HTTP/1.1\r\n\r\n', r, 1024, '-')
             cs.add('req', b'X' * m + b' /\r\n', r, 1024, '-')
-    for u in ((65534, 65535, 65536) if not ctx.thorough else (65533, 65534, 65535, 65536, 65537, 70000)):
+    for u in ((65535, 65536, 65537) if not ctx.thorough else (65534, 65535, 65536, 65537, 65538, 70000)):
         for r in (0, 1):
             cs.add('req', b'GET /' + b'a' * (u - 1) + b' HTTP/1.1\r\n\r\n', r, BIG, '-')
             cs.add('req', b'GET /' + b'a' * (u - 1) + b'\r\n', r, BIG, '-')
@@ -96,7 +96,7 @@ def run(ctx):
             continue
         shown[key] = shown.get(key, 0) + 1
         ctx.violation('request line %r (relaxed_header_parser=%d): parser reported %s, which RequestLine.tla does not allow' % (
-            bytes(o['in'])[:120], o['relaxed'], H.tuple_text(o['tuples'][o['one']])), {'class': cls, 'case': H.project(o), 'line': cs.lines[i][:400]})
+            bytes(o['in'])[:120], o['relaxed'], str(H.tuple_text(o['tuples'][o['one']]))[:400]), {'class': cls, 'case': H.project(o), 'line': cs.lines[i][:400]})
     for i in irej:
         if i not in prej and len(ctx.drift) < 5:
             ctx.drift.append('one-shot outcome differs from ReqHead (RequestHead.tla) on %r relaxed=%d: %s' % (
